@@ -33,8 +33,8 @@ def demo_cmd():
     c = re.sub(r"^(from|in) the worktree root:?\s*", "", c)
     c = re.split(r"\s+\(2\)\s+", c)[0]
     c = re.split(r"\s*;\s*optional\b[^:]*:", c)[0]
-    c = re.sub(r"cd /tmp/seed[2345]?-C\d\d\s*&&\s*", "", c)
-    c = c.replace("/tmp/seed5-%s" % meta["property"], wt).replace("/tmp/seed4-%s" % meta["property"], wt).replace("/tmp/seed3-%s" % meta["property"], wt).replace("/tmp/seed2-%s" % meta["property"], wt).replace("/tmp/seed-%s" % meta["property"], wt)
+    c = re.sub(r"cd /tmp/(?:seed[2345]?|w7)-C\d\d\s*&&\s*", "", c)
+    c = c.replace("/tmp/w7-%s" % meta["property"], wt).replace("/tmp/seed5-%s" % meta["property"], wt).replace("/tmp/seed4-%s" % meta["property"], wt).replace("/tmp/seed3-%s" % meta["property"], wt).replace("/tmp/seed2-%s" % meta["property"], wt).replace("/tmp/seed-%s" % meta["property"], wt)
     c = c.strip()
     if not re.search(r"\bcp\b|\bbash\b|\bsh\b", c):
         # the command does not place the demonstration files itself: place them where meta.json / the file header says
@@ -86,7 +86,7 @@ try:
                 except (OSError, UnicodeDecodeError):
                     continue
                 t2 = t
-                for pre in ("/tmp/seed5-", "/tmp/seed4-", "/tmp/seed3-", "/tmp/seed2-", "/tmp/seed-"):
+                for pre in ("/tmp/w7-", "/tmp/seed5-", "/tmp/seed4-", "/tmp/seed3-", "/tmp/seed2-", "/tmp/seed-"):
                     t2 = t2.replace(pre + meta["property"], wt)
                 if t2 != t:
                     open(fp, "w", encoding="utf-8").write(t2)
